@@ -55,11 +55,20 @@ func runSolver(ctx context.Context, cfg SolverCfg, file string, timeoutS int) so
 	out, _ := cmd.CombinedOutput()
 	secs := time.Since(start).Seconds()
 	text := string(out)
-	first := strings.TrimSpace(strings.SplitN(text, "\n", 2)[0])
 	v := "unknown"
-	switch first {
-	case "sat", "unsat":
-		v = first
+	for _, line := range strings.Split(text, "\n") {
+		line = strings.TrimSpace(line)
+		if strings.HasPrefix(line, "(error ") {
+			// an error before the verdict: a malformed script must never count as a proof
+			return solveResult{"error", text, cfg.Name, secs}
+		}
+		if line == "sat" || line == "unsat" {
+			v = line
+			break
+		}
+		if line == "unknown" || line == "timeout" {
+			break
+		}
 	}
 	return solveResult{v, text, cfg.Name, secs}
 }
@@ -94,6 +103,9 @@ func solveOne(s *Script, o *Obligation, file string, timeoutS int, crossCheck bo
 		o.Solver, o.TimeS, o.Detail = r.solver, r.secs, fmt.Sprintf("%s: %s (%.2fs)", r.solver, r.verdict, r.secs)
 		if r.verdict == "unsat" {
 			o.Status = "failed"
+		} else if r.verdict == "error" {
+			o.Status = "error"
+			o.Model = r.out
 		} else {
 			o.Status = "discharged"
 		}
@@ -106,6 +118,10 @@ func solveOne(s *Script, o *Obligation, file string, timeoutS int, crossCheck bo
 	}
 	r := runSolver(ctx, Solvers[0], file, first)
 	results := []solveResult{r}
+	if r.verdict == "error" {
+		o.Solver, o.Status, o.Model, o.Detail = r.solver, "error", r.out, "solver reported an error in the script"
+		return
+	}
 	if r.verdict == "unknown" {
 		// stage 2: race all
 		cctx, cancel := context.WithCancel(ctx)
@@ -139,6 +155,9 @@ func solveOne(s *Script, o *Obligation, file string, timeoutS int, crossCheck bo
 			o.Status = "discharged"
 		case "sat":
 			o.Status = "failed"
+			o.Model = r.out
+		case "error":
+			o.Status = "error"
 			o.Model = r.out
 		default:
 			o.Status = "unknown"
